@@ -98,8 +98,14 @@ func (d Diff) GoStringer() string {
 
 // CompareConfigs takes two configuration and return the difference between the defined keys
 func CompareConfigs(old, new *ucfg.Config, opts ...ucfg.Option) Diff {
-	oldKeys := old.FlattenedKeys(opts...)
-	newKeys := new.FlattenedKeys(opts...)
+	// a missing (nil) configuration has no keys
+	var oldKeys, newKeys []string
+	if old != nil {
+		oldKeys = old.FlattenedKeys(opts...)
+	}
+	if new != nil {
+		newKeys = new.FlattenedKeys(opts...)
+	}
 
 	difference := make(map[string]Type)
 
